@@ -134,6 +134,17 @@ def check_case(case, rec):
             if not isinstance(d, dict) or (d.get('lineno'), d.get('colno')) != tuple(got):
                 rec.violation(case, 'as_dict result %r differs from tuple result %r' % (d, got), mech='as_dict')
                 return
+        # the calculator class used directly (same mapping, its own defaults for missing offsets)
+        from pylatexenc._util import LineNumbersCalculator
+        calc = LineNumbersCalculator(s, **offs)
+        for pos in range(len(s) + 1):
+            got = calc.pos_to_lineno_colno(pos)
+            rec.monitor('mapping_checked')
+            err, reading = check_mapping(s, pos, got, offs)
+            if err:
+                rec.violation(case, 'LineNumbersCalculator.pos_to_lineno_colno(%d) = %r on %r offsets %r: %s'
+                              % (pos, got, s, offs, err), mech='calculator')
+                return
         if len(READINGS) > 1:
             rec.violation(case, 'both readings of the first-line column offset observed in one run', mech='reading')
     else:
